@@ -143,6 +143,14 @@ pub fn walk_world(rep: &mut Rep, name: &str, walks: u64, steps: usize, mk: &dyn 
         if w.sim.writer.0.borrow().plan == crate::sim::WritePlan::All {
             apply_transport_variant(&mut w, k);
         }
+        // every third walk starts with the identifier counters at a boundary (hook H2); nothing has been allocated yet
+        if k % 3 == 1 && w.m.is_empty() {
+            let pids = [200u16, 250, 255, 256, 300, 0x7ff0, 0x7fff, 0xfff0, 65530, 65535];
+            let sids = [100u32, 127, 128, 16380, 16384, 2_097_150, 2_097_152, 268_435_400];
+            if let Some(h) = w.sim.handles[0].as_ref() {
+                h.verif_seed_ids(pids[(k / 3) as usize % pids.len()], sids[(k / 7) as usize % sids.len()]);
+            }
+        }
         let acts = script::run_walk(&mut w, alpha, &mut rng, steps);
         rep.add("evaluations", 1);
         rep.add("random_walks", 1);
